@@ -21,6 +21,18 @@ def run_slab_model(wd, thorough):
     st = tlc_stats(out)
     if tlc_failed(rc, out) or not st['completed'] or 'is violated' in out:
         die_tool('SlabLayoutMC: the layout model violates its own invariant (oracle defect)\n' + out[-3000:])
+    # the same statement for all sizes over the naturals: TLAPS
+    import subprocess, shutil, re
+    pdir = os.path.join(wd, 'slab-proof')
+    shutil.rmtree(pdir, ignore_errors=True)
+    os.makedirs(pdir)
+    for f in ('SlabLayout.tla', 'SlabLayoutProof.tla'):
+        shutil.copy(os.path.join(SPEC, f), pdir)
+    pr = subprocess.run(['timeout', '1200', 'tlapm', '--threads', '8', 'SlabLayoutProof.tla'], cwd=pdir, stdout=subprocess.PIPE, stderr=subprocess.STDOUT, text=True)
+    m = re.search(r'All (\d+) obligations? proved', pr.stdout)
+    if pr.returncode != 0 or not m:
+        die_tool('SlabLayoutProof.tla: TLAPS did not prove the layout theorem (oracle defect)\n' + pr.stdout[-2000:])
+    st['tlaps_obligations_proved'] = int(m.group(1))
     st['invariants'] = ['LayoutSafeAscii', 'LayoutSafeUnicode', 'WidthMonotone']
     st['needle_lengths'] = lens
     return st
